@@ -69,7 +69,18 @@ ENT_NOTE = ("Theorems are about the Lean model of x/enterprise (message server, 
             "every run; the BeginBlocker statement order and the module-account permission table are regenerated from the source into the "
             "definitions the theorems are about.")
 
+import twin as _twin
+
 PROPS = {
+    "C01": {
+        "chain": [chain("crash", 24, 20, 300, 35), chain("all", 8, 20, 100, 30)],
+        "extra": [_twin.run],
+        "corpus": ["witness", "regress", "known"],
+        "relevant": rel_all,
+        "level_text": "Proof (partial: runtime nondeterminism is not exhibitable by the model): c01_wall_clock_irrelevant (every message handler, transaction, governance execution and hence every run of the model is independent of the wall-clock oracle: the BEACON submit-time fallback is dead behind ValidateBasic, which the router runs before every handler at any nesting depth), c01_crash_replay (a node that loses its working and check state anywhere inside a block and replays the block from its committed state reaches exactly the node that never stopped; commit is the only transition that changes the committed state), c01_slot_check_order_independent (the map-range of check*MaxSlots cannot influence the outcome), c01_nondeterminism_sites (wall-clock, math/rand, goroutine and map-range sites of the consensus-path packages, regenerated from the source every run, are exactly the audited ones). Twin differential on the real app: identical app hashes and tx results across backends, CPU counts, time zones, processes and restart points.",
+        "level_note": "Theorems are about the model (a function of genesis and block list by construction, so equal inputs give equal outputs; the theorems isolate the two inputs that could differ between nodes - the wall clock and a crash - and the facts pin the source sites). What the model cannot exhibit - Go scheduler and map order, DB backend behaviour inside Commit, torn writes - is covered only by the regenerated site lists and by the twin runs of the real application (MemDB/GOMAXPROCS=16 vs goleveldb/GOMAXPROCS=1/other time zone/restarts with replay of the interrupted block, separate processes). One SDK-level finding is recorded: gas_used of a transaction rejected before the ante handler differs in the first block after a process start.",
+        "assumptions": ["CometBFT delivers the same block (header time, transactions) to every node", "storage backends implement the KVStore contract (ordered iteration, atomic commit)"],
+    },
     "C03": {
         "chain": [chain("ent", 24, 25, 300, 40), chain("quorum", 32, 30, 400, 40), chain("gov", 8, 25, 150, 40), chain("all", 16, 25, 200, 40)],
         "corpus": ["witness", "regress", "known"],
